@@ -17,6 +17,24 @@ import (
 	"github.com/hattya/go.sh/printer"
 )
 
+// printerFamily: derivation family of the program currently handed to the callback of printerPrograms
+var printerFamily string
+
+// configsFor: generated words (family WG) only meet the options that act on words, redirections and assignments,
+// so they are printed under the 16 Configs that vary exactly those (each with the other options all off / all on).
+func configsFor(all []*printer.Config) []*printer.Config {
+	if printerFamily != "WG" {
+		return all
+	}
+	out := make([]*printer.Config, len(all)) // indexed like all; nil = not used
+	for m, c := range all {
+		if m&0xE3 == 0 || m&0xE3 == 0xE3 {
+			out[m] = c
+		}
+	}
+	return out
+}
+
 func allConfigs() []*printer.Config {
 	var cfgs []*printer.Config
 	for m := 0; m < 256; m++ {
@@ -289,6 +307,9 @@ func c05Judge(w *W, src string, cmds []ast.Command, cfgs []*printer.Config) {
 	want := semDump(cmds)
 	seen := map[string]bool{}
 	for ci, cfg := range cfgs {
+		if cfg == nil {
+			continue
+		}
 		w.Count("evaluations", 1)
 		out, err, pan := printAll(cfg, cmds)
 		if pan != nil {
@@ -351,9 +372,10 @@ func printerPrograms(w *W, f func(src string, cmds []ast.Command)) {
 	})
 	seen := map[string]bool{}
 	derivations(w.thorough(), func(name string, texts []string) {
-		if name == "D3" && !w.thorough() {
-			return
+		if name == "D3" && !w.thorough() || name == "WG" && len(texts) > 3 {
+			return // generated words: as argument, command name and redirection target only
 		}
+		printerFamily = name
 		key := strings.Join(texts, "\x00")
 		if seen[key] {
 			return
@@ -392,6 +414,9 @@ func c18Judge(w *W, src string, cmds []ast.Command, cfgs []*printer.Config, faul
 	before := dumpAST(cmds, true)
 	seen := map[string]bool{}
 	for ci, cfg := range cfgs {
+		if cfg == nil {
+			continue
+		}
 		w.Count("evaluations", 1)
 		out, err, pan := printAll(cfg, cmds)
 		if pan != nil || err != nil {
@@ -400,7 +425,7 @@ func c18Judge(w *W, src string, cmds []ast.Command, cfgs []*printer.Config, faul
 		}
 		// the (reflection based) deep comparison is done after the configs that select a different
 		// code path (every one that changes Then/Do/Case/Redir/Assign = every 4th) and after the last
-		if ci%4 == 3 || ci == len(cfgs)-1 {
+		if ci%4 == 3 || ci == len(cfgs)-1 || cfgs[ci+1] == nil {
 			if after := dumpAST(cmds, true); after != before {
 				w.Violation("tree-modified", printCase{src, ci}, fmt.Sprintf("Fprint under %s (or one of the 3 configs before it) modified the tree parsed from %q\n before %s\n after  %s", configName(ci), src, before, after))
 				return
@@ -431,6 +456,9 @@ func c18Judge(w *W, src string, cmds []ast.Command, cfgs []*printer.Config, faul
 	}
 	for _, ci := range []int{0, 13, 255} {
 		cfg := cfgs[ci]
+		if cfg == nil {
+			continue
+		}
 		for _, c := range cmds {
 			var full bytes.Buffer
 			cfg.Fprint(&full, c)
@@ -472,7 +500,7 @@ func init() {
 		assume: []string{"the original parse is the oracle (metamorphic); semantic skeleton = and-or lists with async flag, pipelines, commands, words and parts, redirections, here-document body/delimiter text"},
 		run: func(w *W) {
 			cfgs := allConfigs()
-			printerPrograms(w, func(src string, cmds []ast.Command) { c05Judge(w, src, cmds, cfgs) })
+			printerPrograms(w, func(src string, cmds []ast.Command) { c05Judge(w, src, cmds, configsFor(cfgs)) })
 		},
 		replay: func(raw json.RawMessage) error {
 			var c printCase
@@ -501,7 +529,7 @@ func init() {
 		assume: []string{"purity is judged on a reflection dump of every field of every node", "outputs that do not re-parse are C05's subject and skipped here"},
 		run: func(w *W) {
 			cfgs := allConfigs()
-			printerPrograms(w, func(src string, cmds []ast.Command) { c18Judge(w, src, cmds, cfgs, true) })
+			printerPrograms(w, func(src string, cmds []ast.Command) { c18Judge(w, src, cmds, configsFor(cfgs), true) })
 			// outputs larger than bufio's 4096-byte buffer
 			if w.Mine() {
 				var b strings.Builder
